@@ -281,6 +281,33 @@ func init() {
 						sites = append(sites, l+1)
 					}
 				}
+				// in every second file a template full of constructs that span lines comes first (a literal block, a block
+				// comment, a soydoc with many lines, tags broken over lines): whatever skips over them has to count their lines
+				if i%2 == 0 {
+					first := 0
+					for li, l := range strings.Split(src, "\n") {
+						if strings.HasPrefix(l, "/**") || strings.HasPrefix(l, "{template") {
+							first = li + 1
+							break
+						}
+					}
+					decoy := c19Decoy(ctx.Rng)
+					if first > 0 {
+						cand := insertLine(src, first, decoy)
+						if _, err := parse.SoyFile(f.Name, cand); err == nil {
+							k := 1 + strings.Count(decoy, "\n")
+							for j := range sites {
+								if sites[j] >= first {
+									sites[j] += k
+								}
+							}
+							src = cand
+							ctx.Obs("files_with_multi_line_constructs", 1)
+						} else {
+							ctx.Obs("decoy_rejected", 1)
+						}
+					}
+				}
 				// file names are labels given by the caller: whatever their form, errors carry them as given
 				name := []string{"dir/in%d.soy", "./views/in%d.soy", "views//in%d.soy", "views/../in%d.soy", "in%d.soy/", "C:\\tpl\\in%d.soy", " spaced name %d.soy", "\u540d\u524d%d.soy", "a/./b/in%d.soy", "in%d"}[i%10]
 				name = fmt.Sprintf(name, i)
@@ -477,6 +504,27 @@ func c19Recursive(ctx *fw.Ctx) fw.Result {
 			Msg: fmt.Sprintf("entry template calling itself %d deep, failing at the bottom: %s", levels, why)}
 	}
 	return fw.Result{Verdict: fw.Held}
+}
+
+// c19Decoy is a valid template made of constructs that span several lines.
+func c19Decoy(r *fw.Rand) string {
+	var b strings.Builder
+	b.WriteString("/**\n * decoy\n *\n * with a long soydoc\n */\n{template .verifDecoy}\n")
+	pieces := []string{
+		"{literal}\n  first {$line of\n  the } literal\n\n  block\n{/literal}",
+		"/* a block comment\n   over three\n   lines */",
+		"{call .verifDecoy\n    data=\"all\"\n/}",
+		"{literal}one\ntwo{/literal}{literal}\n{/literal}",
+		"{msg desc=\"d\"}\n  words\n  {literal}<\n>{/literal}\n  more\n{/msg}",
+		"{if true}\n{elseif\n  false}\n{/if}",
+		"{let $verifD:\n  [1,\n   2]\n/}{$verifD}",
+		"text // a comment to the end of the line\nmore text",
+	}
+	for k := 0; k < 2+r.Intn(4); k++ {
+		b.WriteString(pieces[r.Intn(len(pieces))] + "\n")
+	}
+	b.WriteString("{/template}\n{template .verifDecoyH}\n{@param x:\n  string}\n{@param? y: int}\n{$x}{$y}\n{/template}")
+	return b.String()
 }
 
 // c19MsgTwins: a message prints the same failing expression on two of its lines (one placeholder, two occurrences)
